@@ -50,7 +50,7 @@ pub fn atoms_top() -> Vec<(Value, bool)> {
     }
     for t in [
         "", "a", "b", "ab", "a b", "true", "false", "1", "-1", "1.0", "0x1", "x,y", "x;y", "x:y", "x(y", "x)y", "x{y", "x}y", "x\"y", "x\\y", "\n", "x\ny",
-        "\t", "\u{e9}", "@a", "%AA==", "%", "#c", "a\u{0}", "\u{ffff}", "\u{1d11e}", "NaN", "-", "_", "a-b", "a.b",
+        "\t", "\u{e9}", "@a", "%AA==", "%", "#c", "a\u{0}", "\u{ffff}", "\u{1d11e}", "NaN", "-", "_", "a-b", "a.b", "inf", "info", "nano",
     ] {
         q(text(t));
     }
@@ -76,6 +76,7 @@ pub fn atoms_sub() -> Vec<(Value, bool)> {
         (int(0), false),
         (text("1"), false),
         (text("true"), false),
+        (text("inf"), false),
         (text("a b"), false),
         (text("x)y"), false),
         (text(""), false),
